@@ -256,6 +256,13 @@ func Add(a, b T) T {
 		if y, _, ok := bvLit(b); ok && y.Sign() == 0 {
 			return a
 		}
+		// x + (j - x) = j (quantifiers re-based onto the absolute index of a backing array)
+		if strings.HasPrefix(b.S, "(bvsub ") && strings.HasSuffix(b.S, " "+a.S+")") && len(b.S) > len("(bvsub ")+len(a.S)+2 {
+			return T{b.S[len("(bvsub ") : len(b.S)-len(a.S)-2], a.Sort}
+		}
+		if strings.HasPrefix(a.S, "(bvsub ") && strings.HasSuffix(a.S, " "+b.S+")") && len(a.S) > len("(bvsub ")+len(b.S)+2 {
+			return T{a.S[len("(bvsub ") : len(a.S)-len(b.S)-2], a.Sort}
+		}
 		return app("bvadd", a.Sort, a, b)
 	}
 	return linAdd(a, b)
